@@ -6,6 +6,6 @@ cd /repo || exit 2
 if ! git diff --quiet; then echo "/repo has uncommitted changes"; exit 2; fi
 git apply "$PATCH" || { echo "patch does not apply"; exit 2; }
 cd /verif && ./check "$ID" "$TIER" > run/seedtest_$ID.log 2>&1; RC=$?
-cd /repo && git checkout -- . 
+cd /repo && git checkout -- . && /verif/tools/bin/go2coq -repo /repo -out /verif/coq/gen >/dev/null
 grep -E "^VIOLATION|^OK|^KNOWN|oracle:|prove:|correspondence:" /verif/run/seedtest_$ID.log
 echo "exit=$RC"
